@@ -1111,6 +1111,64 @@ fn oracle_get_hs(r: &Req, out: &str) -> Result<(), String> {
     Ok(())
 }
 
+// ------------------------------------------------------------------ kkt.cone_ranges
+
+/// `make_rng_cones` / `make_rng_blocks` (as stored by `CompositeCone::new`), the crate-private
+/// iterator `rng_cones_iter` over the `SupportedConeT` list, and the length of the vector
+/// `allocate_kkt_Hsblocks` returns (read off `LDLDataMap::new` through the assembly hook)
+fn run_cone_ranges(r: &Req) -> String {
+    let list = parse_cones(r.str("cones"));
+    let cones = CompositeCone::<f64>::new(&list);
+    let (rc, rb) = hk::cone_ranges(&cones);
+    let it = clarabel::verif_hooks::cones::verif_hooks_ranges::rng_cones_iter_pairs(&list);
+    let m: usize = cones.numel();
+    let P = CscMatrix::<f64>::zeros((1, 1));
+    let A = CscMatrix::<f64>::zeros((m, 1));
+    let (_, map, _) = hk::assemble(&P, &A, &cones, hk::triangle(true));
+    let fst = |v: &[(usize, usize)]| v.iter().map(|p| p.0).collect::<Vec<_>>();
+    let snd = |v: &[(usize, usize)]| v.iter().map(|p| p.1).collect::<Vec<_>>();
+    Line::out()
+        .us("cs", &fst(&rc)).us("ce", &snd(&rc))
+        .us("bs", &fst(&rb)).us("be", &snd(&rb))
+        .us("is", &fst(&it)).us("ie", &snd(&it))
+        .u("hslen", map.Hsblocks.len())
+        .done()
+}
+
+/// the ranges are consecutive, start at 0, have the width of their cone / block, and the last
+/// one ends at the total; written down from the cone list only
+fn oracle_cone_ranges(r: &Req, out: &str) -> Result<(), String> {
+    let o = Req::parse(&format!("x {}", out)).ok_or("unparsable response")?;
+    let spec = parse_cs(r.str("cones"));
+    let check = |ks: &str, ke: &str, width: &dyn Fn(&CS) -> usize| -> Result<usize, String> {
+        let (st, en) = (o.us(ks), o.us(ke));
+        if st.len() != spec.len() || en.len() != spec.len() {
+            return Err(format!("{}: {} ranges for {} cones", ks, st.len(), spec.len()));
+        }
+        let mut at = 0;
+        for (i, c) in spec.iter().enumerate() {
+            if st[i] != at {
+                return Err(format!("{}[{}] = {} but the previous range ends at {}", ks, i, st[i], at));
+            }
+            if en[i] != st[i] + width(c) {
+                return Err(format!("{}[{}] = {} but start {} + width {}", ke, i, en[i], st[i], width(c)));
+            }
+            at = en[i];
+        }
+        Ok(at)
+    };
+    let total = check("cs", "ce", &|c| c.numel())?;
+    if total != spec.iter().map(|c| c.numel()).sum::<usize>() {
+        return Err("cone ranges do not cover 0..numel".into());
+    }
+    check("is", "ie", &|c| c.numel())?;
+    let btotal = check("bs", "be", &|c| if c.diag() { c.numel() } else { c.numel() * (c.numel() + 1) / 2 })?;
+    if o.u("hslen") != btotal {
+        return Err(format!("allocate_kkt_Hsblocks length {} but the block ranges end at {}", o.u("hslen"), btotal));
+    }
+    Ok(())
+}
+
 // ------------------------------------------------------------------ blk.*
 
 fn out_k(K: &CscMatrix<f64>) -> String {
@@ -1451,18 +1509,21 @@ fn oracle_live(_r: &Req, out: &str) -> Result<(), String> {
 fn channels() -> Vec<Channel> {
     let mut v = vec![
         Channel { name: "kkt.assemble", tol: Tol::Exact, run: run_assemble, oracle: Some(oracle_assemble), modelled: true,
-            rust_fn: "assemble_kkt_matrix / LDLDataMap::new / _fill_signs / csc_{colcount,fill}_sparsecone",
+            rust_fn: "assemble_kkt_matrix / LDLDataMap::new (allocate_kkt_Hsblocks) / _fill_signs / csc_{colcount,fill}_sparsecone = csc_colcount_sparsecone, csc_fill_sparsecone (SOC and genpow expansion maps; to_sparse_expansion, recover_map / recover_map_mut select the cone and its map; the map is read back through the hook plain_map)",
             lean: "Kkt.assembleKktMatrix, Kkt.fillSigns / C11.signs, C11.assembly_*" },
         Channel { name: "kkt.update", tol: Tol::Exact, run: run_update, oracle: Some(oracle_update), modelled: true,
-            rust_fn: "DirectLDLKKTSolver::{new,update,regularize_and_refactor} / csc_update_sparsecone / get_Hs",
+            rust_fn: "DirectLDLKKTSolver::{new,update,regularize_and_refactor} / _update_values, _update_values_KKT, _scale_values, _scale_values_KKT / csc_update_sparsecone (recover_map) / get_Hs",
             lean: "Kkt.updateValues, Kkt.regularizeAndRestore / C11.refinement_copy_clean, C11.soc_expansion, C11.genpow_expansion" },
         Channel { name: "kkt.get_hs", tol: Tol::Exact, run: run_get_hs, oracle: Some(oracle_get_hs), modelled: true,
             rust_fn: "Cone::get_Hs (zero, nonnegative, second-order dense/sparse, genpow)", lean: "Kkt.getHs" },
         Channel { name: "kkt.passes", tol: Tol::Exact, run: run_passes, oracle: Some(oracle_passes), modelled: true,
             rust_fn: "DirectLDLKKTSolver::update called once per pass of the loop on one solver object (2-4 passes)",
             lean: "Kkt.runPasses, Kkt.updatePass / C11.pass_history_independent, C11.passes_last_is_fresh, C11.passes_keep_PA" },
+        Channel { name: "kkt.cone_ranges", tol: Tol::Exact, run: run_cone_ranges, oracle: Some(oracle_cone_ranges), modelled: true,
+            rust_fn: "compositecone::make_rng_cones / make_rng_blocks (CompositeCone::new), supportedcone::rng_cones_iter (RangeSupportedConesIterator::next), kkt_assembly::allocate_kkt_Hsblocks (length)",
+            lean: "Kkt.makeRngCones, Kkt.makeRngBlocks, Kkt.rngConesIter, Kkt.allocateKktHsblocksLen (KktRanges.lean) / C11.cone_ranges_*" },
         Channel { name: "kkt.live", tol: Tol::Exact, run: run_live, oracle: Some(oracle_live), modelled: false,
-            rust_fn: "DefaultSolver::solve -> DirectLDLKKTSolver state", lean: "(oracle only)" },
+            rust_fn: "DefaultSolver::solve -> DirectLDLKKTSolver state; DirectLDLKKTSolver::new picks the backend and the triangle through get_ldlsolver_config (direct_solve_method qdldl / auto / faer; each backend's required_matrix_shape is Triu): the oracle checks the live KKT matrix against the upper-triangle layout", lean: "(oracle only; the model assembles with shape triu)" },
     ];
     for (name, rust_fn) in [
         ("blk.colcount_dense_triangle", "CscMatrix::colcount_dense_triangle"),
@@ -1474,7 +1535,7 @@ fn channels() -> Vec<Channel> {
         ("blk.fill_colvec", "CscMatrix::fill_colvec"),
         ("blk.fill_rowvec", "CscMatrix::fill_rowvec"),
         ("blk.fill_block", "CscMatrix::fill_block"),
-        ("blk.fill_dense_triangle", "CscMatrix::fill_dense_triangle"),
+        ("blk.fill_dense_triangle", "CscMatrix::fill_dense_triangle (both arms: _fill_dense_triangle_triu / _fill_dense_triangle_tril)"),
         ("blk.fill_diag", "CscMatrix::fill_diag"),
         ("blk.fill_missing_diag", "CscMatrix::fill_missing_diag"),
         ("blk.colcount_to_colptr", "CscMatrix::colcount_to_colptr"),
@@ -2060,7 +2121,23 @@ fn gen_live(s: &mut Session) {
     }
 }
 
+fn gen_cone_ranges(s: &mut Session) {
+    let mut lists = cone_lists();
+    lists.extend(big_cone_lists());
+    lists.push(vec![CS::Zero(0)]);
+    lists.push(vec![CS::NN(0), CS::Soc(3), CS::Zero(0)]);
+    lists.push(vec![CS::Soc(2), CS::Soc(4), CS::Soc(5), CS::Psd(1), CS::Psd(4), CS::NN(0)]);
+    for _ in 0..s.budget(20, 200) {
+        let l = random_cone_list(&mut s.rng, true);
+        lists.push(l);
+    }
+    for l in lists {
+        s.submit(Line::new("kkt.cone_ranges").s("cones", &fmt_cs(&l)).done());
+    }
+}
+
 fn generate(s: &mut Session) {
+    gen_cone_ranges(s);
     gen_live(s);
     gen_assemble(s);
     gen_blk(s);
